@@ -74,7 +74,11 @@ impl ChessMove {
                 Square::make_square(rank, dest_file),
                 None,
             );
-            if MoveGen::new_legal(&board).any(|l| l == m) {
+            // the text denotes castling: the man on the e-file home square has to be the king
+            // (a rook or queen standing there may have the same legal move)
+            if board.piece_on(m.get_source()) == Some(Piece::King)
+                && MoveGen::new_legal(&board).any(|l| l == m)
+            {
                 return Ok(m);
             } else {
                 return Err(Error::InvalidSanMove);
